@@ -194,6 +194,8 @@ int main(int argc, char** argv)
         o.mask    = static_cast<int>(d[2]);
         o.target  = static_cast<int>(d[3]);
         o.threads = threads[d[4]];
+        std::fprintf(stderr, "CASE %s:%llu\n", stage.c_str(), static_cast<unsigned long long>(index));
+        std::fflush(stderr);
         const auto source  = make_source(o);
         auto       dataset = dataset_t{*source, static_cast<size_t>(o.threads)};
         vt::add_identity_generators(dataset);
